@@ -15,6 +15,7 @@ import (
 	"bytes"
 	"context"
 	"encoding/json"
+	"errors"
 	"fmt"
 	"io"
 	"log/slog"
@@ -61,6 +62,7 @@ type Instance struct {
 	CfgPath string
 	Sink    *Sink
 	App     *app.App
+	hung    bool // an application call exceeded its watchdog
 	Reg     *prometheus.Registry
 	Addr    string
 	Log     *logBuf
@@ -161,9 +163,20 @@ func (in *Instance) Stop() error {
 		return nil
 	}
 	in.hc.CloseIdleConnections()
-	err := in.App.Stop(context.Background())
+	a := in.App
 	in.App = nil
-	return err
+	if !in.hung {
+		return a.Stop(context.Background())
+	}
+	// an earlier call hangs inside the application: do not let Stop wait for it forever
+	done := make(chan error, 1)
+	go func() { done <- a.Stop(context.Background()) }()
+	select {
+	case err := <-done:
+		return err
+	case <-time.After(20 * time.Second):
+		return ErrHung
+	}
 }
 
 // StopCtx is App.Stop with the caller's context (a deadline for the graceful part); the error of Stop is returned and
@@ -185,7 +198,25 @@ func (in *Instance) Close() {
 	os.RemoveAll(in.Dir)
 }
 
-func (in *Instance) Reload() error { return in.App.Reload() }
+// ErrHung: an application call did not return within its watchdog (the goroutine making it is abandoned).
+var ErrHung = errors.New("the call did not return within the watchdog (hangs)")
+
+const reloadWatchdog = 15 * time.Second
+
+// Reload is App.Reload under a watchdog: a reload that blocks (e.g. on a coordinator mutex that an earlier reload
+// never released) must become a judged observation, not a harness timeout.
+func (in *Instance) Reload() error {
+	a := in.App
+	done := make(chan error, 1)
+	go func() { done <- a.Reload() }()
+	select {
+	case err := <-done:
+		return err
+	case <-time.After(reloadWatchdog):
+		in.hung = true
+		return ErrHung
+	}
+}
 
 // ReloadHTTP posts /-/reload and returns the status code.
 func (in *Instance) ReloadHTTP() (int, string, error) {
